@@ -623,6 +623,8 @@ impl Property for C08 {
         // those with a line longer than the 8 KiB read buffer, which are
         // sampled: 1500 positions incl. all line/say boundaries)
         let cap = if thorough { 1500 } else { 48 };
+        // inputs with very long lines: fewer positions (each run moves a lot)
+        let cap = if sc.input.len() > 20_000 { cap.min(if thorough { 200 } else { 12 }) } else { cap };
         let kinds_per_pos = if thorough { 4 } else { 1 };
         // writer: every byte offset of the expected output
         let say_bounds: Vec<usize> = full
